@@ -9,7 +9,7 @@
     base of a returned pair in strand direction.  [sec_ok] = the header invariants every parsed header has. *)
 Require Import CF.Proofs.Tac CF.Model.Omics CF.Model.Pair CF.Model.Records CF.Model.Reader CF.Model.Sections CF.Model.Machine
   CF.Proofs.OmicsFacts CF.Proofs.PairFacts CF.Proofs.RecordsFacts CF.Proofs.SectionsFacts CF.Spec.Align CF.Proofs.MachineFacts
-  CF.Proofs.LiftProps CF.Proofs.BuildFacts CF.Proofs.Examples.
+  CF.Proofs.LiftProps CF.Proofs.BuildFacts CF.Proofs.EndToEnd CF.Proofs.Examples.
 
 (** For every file (any number of chains, blocks, gaps, strands, overlapping chains, coordinates up to
     u64::MAX) from which a machine is built and every interval: each returned pair is contiguous and
@@ -38,6 +38,20 @@ Theorem C01_from_reads : forall rs m, build_reads rs = Val (Ok m) ->
   exists f, spec_sections None 0 rs = map Ok f /\ Forall sec_ok f /\ build_secs f = Val (Ok m) /\ Forall sums_ok f.
 Proof. exact build_reads_ok_inv. Qed.
 Print Assumptions C01_from_reads.
+
+(** The two composed, with no intermediate notion left: for every source [s] — bytes under any schedule of chunks and
+    interrupts — from which the library builds a machine [m], and every interval, there is a list of sections [f], namely what the
+    line grammar parses from the reads of [s], such that everything [liftover m iv] returns is an alignment of a block of [f]. *)
+Theorem C01_end_to_end : forall s m iv, build s = Val (Ok m) -> wf_ival iv ->
+  exists f r, spec_sections None 0 (raw_reads s) = map Ok f /\ Forall sec_ok f /\ Forall sums_ok f /\
+    liftover m iv = Val r /\
+    (forall rb qb, mult_res (opt_list r) rb qb = mult_spec f iv rb qb) /\
+    Forall (fun p => wf_pair p /\
+              forall i, i < len (pref p) ->
+                exists sec blk, In sec f /\ In blk (sec_blocks sec) /\ block_maps (shdr sec) blk (rbase p i) (qbase p i) = true)
+           (opt_list r).
+Proof. exact end_to_end. Qed.
+Print Assumptions C01_end_to_end.
 
 Example C01_nonvacuous : exists m,
   build_secs ex_file = Val (Ok m) /\ wf_ival ex_iv /\
